@@ -286,6 +286,7 @@ let () =
        let npf g = nat_of_int (np_of (int_of_nat g)) in
        let isentf g = Hashtbl.mem fmeta (int_of_nat g) in
        let s = ref init in
+       let junk = ref max_int in
        let i = ref 0 in
        let result = ref "" in
        (try
@@ -299,7 +300,17 @@ let () =
                   result := Printf.sprintf "LOCKSTEP mismatch step=%d at ip=%d: model fp=%d pp=%d, real fp=%d pp=%d (next ip=%d)"
                       !i (int_of_nat !s.ip) (f - 1) (p - 1) fp' pp' ip'; raise Exit end;
                 (* the collector's view of the stack: gc_stack tag of every slot 0..sp (GC_MEM_ADDR = root) *)
-                if kh' >= 0 then begin
+                (* RET/RETHROW copy the top slot into the frame's result position; on the exception path that
+                   top slot is whatever was there when the fault happened (a value, or the frame's own
+                   return-address slot when nothing had been pushed yet), so its tag is unconstrained: it is
+                   never read and the handler's CLEAR_STACK removes it.  Tags are compared again once the
+                   stack is below that slot. *)
+                let len' = List.length s'.stk in
+                (match codef !s.ip with
+                 | Some ARethrow -> if len' - 1 < !junk then junk := len' - 1
+                 | _ -> ());
+                if len' <= !junk then junk := max_int;
+                if kh' >= 0 && !junk = max_int then begin
                   let h = List.fold_left (fun h sl -> (h * 31 + kind_of_slot sl) land 0xffffffff) 0 s'.stk in
                   if h land 0x3fffffff <> kh' then begin
                     let (op, _, _, _) = d.code.(int_of_nat !s.ip) in
